@@ -133,6 +133,7 @@ func toUnified(fromName, toName string, content string, edits []Edit, contextLin
 		case h != nil && start <= last+gap:
 			//within range of previous lines, add the joiners
 			addEqualLines(h, lines, last, start)
+			toLine += start - last // the joiners are lines of the new text too
 		default:
 			//need to start a new hunk
 			if h != nil {
